@@ -341,6 +341,11 @@ def adc(img, gain, saturation_capacity=None, warn_saturate=False, dtype=None):
     img[img < 0] = 0
 
     if dtype is not None:
+        if np.issubdtype(np.dtype(dtype), np.integer):
+            # a converter rails at the full scale of its output type (a plain
+            # cast would wrap around)
+            info = np.iinfo(dtype)
+            img = np.clip(img, info.min, info.max)
         img = img.astype(dtype)
 
     
